@@ -325,8 +325,13 @@ class AbstractDateTime(AnyAtomicType):
                 if tzinfo is None:
                     return type(self).fromdelta(delta)
 
-                value = type(self).fromdelta(delta + tzinfo.utcoffset(None))
+                cls = DateTime if isinstance(self, DateTimeStamp) else type(self)
+                value = cls.fromdelta(delta + tzinfo.utcoffset(None))
                 value.tzinfo = tzinfo
+                if cls is not type(self):
+                    # an xs:dateTimeStamp cannot be built without its timezone
+                    return type(self)(value.year, value.month, value.day, value.hour,
+                                      value.minute, value.second, value.microsecond, tzinfo)
                 return value
 
             case YearMonthDuration():
